@@ -5,6 +5,14 @@ import (
 	"time"
 )
 
+// hxLateCtx is a caller context whose deadline is ten minutes away.
+type hxLateCtx struct{}
+
+func (hxLateCtx) Deadline() (time.Time, bool) { return time.Now().Add(10 * time.Minute), true }
+func (hxLateCtx) Done() <-chan struct{}       { return nil }
+func (hxLateCtx) Err() error                  { return nil }
+func (hxLateCtx) Value(key any) any           { return nil }
+
 // C17: every network operation is bounded by the configured timeout.
 // The server answers honestly up to a chosen point and is silent afterwards;
 // a read from a silent peer returns (with a timeout error) only if a deadline
@@ -45,14 +53,20 @@ func HarnessC17Stall() {
 	c := hxNewClient(s, opts...)
 	s.phase = "dial"
 	var err error
+	// the caller's context may carry a deadline of its own that lies far beyond
+	// the configured timeout: the timeout still bounds every network operation
+	var ctx context.Context = context.Background()
+	if svPick("caller-context", 2) == 1 {
+		ctx = hxLateCtx{}
+	}
 	switch entry {
 	case 0:
-		err = c.DialWithContext(context.Background())
+		err = c.DialWithContext(ctx)
 	case 1:
 		s.phase = "dial-and-send"
 		err = c.DialAndSend(hxTestMsg(0, 1, 0, EncodingQP))
 	default:
-		err = c.DialWithContext(context.Background())
+		err = c.DialWithContext(ctx)
 		if err == nil {
 			s.phase = "send"
 			err = c.Send(hxTestMsg(0, 1, 0, EncodingQP))
